@@ -42,6 +42,11 @@ def ensure_zygote(mod):
     properties that need isolated workers / a pristine reference)."""
     if getattr(mod, "NEEDS_ZYGOTE", False):
         from . import zygote
+        # the zygote must not inherit a seam that changes results: in a process that already ran another property
+        # (the determinism self-test does) the matcher may still see SimSet, whose order without a scheduler differs
+        # from a real set's under some hash seeds
+        from . import simset
+        simset.uninstall()
         zygote.start()
 
 
